@@ -99,7 +99,7 @@ def accessor_checks(check: Check, repo) -> None:
 
 def run(tier: str) -> Check:
     check = Check("C06", tier, EXPLANATION)
-    check.rules = ["RULE-PAIR", "RULE", "K2", "R7", "TAGS", "ACCESSOR"]
+    check.rules = ["RULE-PAIR", "RULE", "K2", "R7", "TAGS", "ACCESSOR", "ESCAPE-ACCESSOR"]
     check.assumptions = [
         "text == input[start:end] is definitional; numeric span relations follow from the construction obligations plus position-write discipline (C16/POS) and the trusted primitives",
         "accessor shape facts are compared with the canonical generator shapes; an equivalent but differently written accessor is reported as ANALYSIS-ERROR only if it cannot be linearised",
@@ -107,4 +107,10 @@ def run(tier: str) -> Check:
     repo, _ = fill(check, tier, floors={"rule_paths": 200, "rule_skeleton_variants": 24})
     accessor_checks(check, repo)
     check.floor("accessor_facts", 15)
+    from ..escape_props import run_entry
+
+    for q in ("Pair.tokens", "Pair.dump", "Pair.dumps", "Pair.span", "Pair.__str__", "Pairs.tokens", "Pairs.dump", "Pairs.dumps", "Pairs.flatten", "Pairs.__iter__", "Pairs.__len__"):
+        t, _ = run_entry(check, repo, f"{PAIRS_REL}::{q}", set(), "ESCAPE-ACCESSOR")
+        check.count("accessor_entries")
+    check.floor("accessor_entries", 10)
     return check
